@@ -799,3 +799,162 @@ func genDbdsqrMinWork(g *vlib.G) {
 		}
 	}
 }
+
+// genDbdsqrDirect calls Dlasq1 and Dbdsqr directly on n×n bidiagonal matrices
+// with every sign pattern of the diagonal (magnitudes 1..n in two orders) and
+// every zero / non-zero pattern of the off-diagonal (including the already
+// diagonal matrix with a negative last entry), upper and lower, for all eight
+// combinations of requested vectors including none.
+func genDbdsqrDirect(g *vlib.G) {
+	for n := 0; n <= vlib.Pick(g, 5, 7); n++ {
+		for zmask := 0; zmask < 1<<uint(max(0, n-1)); zmask++ {
+			for _, uplo := range []blas.Uplo{blas.Upper, blas.Lower} {
+				for _, ldx := range []int{0, 2} {
+					n, zmask, uplo, ldx := n, zmask, uplo, ldx
+					if g.Stopped() {
+						return
+					}
+					kase(g, fmt.Sprintf("Dbdsqr/Dlasq1 n=%d offdiag=%0*b uplo=%c ld=+%d", n, max(1, n-1), zmask, uplo, ldx), func(t *vlib.T) {
+						runDbdsqrDirect(t, n, zmask, uplo, ldx)
+					})
+				}
+			}
+		}
+	}
+}
+
+func runDbdsqrDirect(t *vlib.T, n, zmask int, uplo blas.Uplo, ldx int) {
+	dim := fmax(n)
+	cm := intGeneral(n, 2, 3, lcgFor(90, n, zmask))
+	for smask := 0; smask < 1<<uint(n); smask++ {
+		for order := 0; order < 2; order++ {
+			d0, e0 := make([]float64, n), make([]float64, max(0, n-1))
+			for i := range d0 {
+				d0[i] = float64(i + 1)
+				if order == 1 {
+					d0[i] = float64(n - i)
+				}
+				if smask&(1<<uint(i)) != 0 {
+					d0[i] = -d0[i]
+				}
+			}
+			for i := range e0 {
+				if zmask&(1<<uint(i)) != 0 {
+					e0[i] = float64(1 + i%2)
+				}
+			}
+			b := newM(n, n)
+			for i := range d0 {
+				b.set(i, i, d0[i])
+			}
+			for i := range e0 {
+				if uplo == blas.Upper {
+					b.set(i, i+1, e0[i])
+				} else {
+					b.set(i+1, i, e0[i])
+				}
+			}
+			nrm := fro(b)
+			oracle := jacobiSV(b)
+			ctx0 := fmt.Sprintf("d=%v e=%v", d0, e0)
+			// Dlasq1 (upper bidiagonal by definition; singular values do not depend on uplo)
+			if n > 0 {
+				d, e := append([]float64(nil), d0...), append([]float64(nil), e0...)
+				var info int
+				if !call(t, "Dlasq1 "+ctx0, func() { info = impl.Dlasq1(n, d, e, poisoned(4*n)) }) {
+					return
+				}
+				if info != 0 {
+					t.Failf("Dlasq1 info=%d [%s]", info, ctx0)
+				} else {
+					if !descendingNonneg(d) {
+						t.Failf("Dlasq1: singular values not non-negative descending: %v [%s]", d, ctx0)
+					}
+					chk(t, "direct-lasq1-s-vs-jacobi", ratio(maxDiff(d, oracle), dim, nrm), thresh, ctx0)
+				}
+			}
+			for mask := 0; mask < 8; mask++ {
+				ncvt, nru, ncc := 0, 0, 0
+				if mask&1 != 0 {
+					ncvt = n
+				}
+				if mask&2 != 0 {
+					nru = n
+				}
+				if mask&4 != 0 {
+					ncc = 2
+				}
+				ctx := fmt.Sprintf("%s ncvt=%d nru=%d ncc=%d", ctx0, ncvt, nru, ncc)
+				d, e := append([]float64(nil), d0...), append([]float64(nil), e0...)
+				var vts, us, cs *S
+				var vtd, ud, cd []float64
+				ldvt, ldu, ldc := max(1, ncvt)+off(ldx, 0), max(1, n)+off(ldx, 1), max(1, ncc)+off(ldx, 2)
+				if ncvt > 0 {
+					vts = fromM(eye(n), ldvt).snap()
+					vtd = vts.d
+				}
+				if nru > 0 {
+					us = fromM(eye(n), ldu).snap()
+					ud = us.d
+				}
+				if ncc > 0 {
+					cs = fromM(cm, ldc).snap()
+					cd = cs.d
+				}
+				var ok bool
+				if !call(t, "Dbdsqr "+ctx, func() {
+					ok = impl.Dbdsqr(uplo, n, ncvt, nru, ncc, d, e, vtd, ldvt, ud, ldu, cd, ldc, poisoned(max(0, 4*(n-1))))
+				}) {
+					return
+				}
+				if !ok {
+					t.Failf("Dbdsqr did not converge [%s]", ctx)
+					continue
+				}
+				if !descendingNonneg(d) {
+					t.Failf("Dbdsqr: singular values not non-negative descending: %v [%s]", d, ctx)
+				}
+				chk(t, "direct-bdsqr-s-vs-jacobi", ratio(maxDiff(d, oracle), dim, nrm), thresh, ctx)
+				sig := diagM(d)
+				var u, vt M
+				if us != nil {
+					if i, ok := us.padOK(n, n); !ok {
+						t.Failf("padding of u modified at flat index %d [%s]", i, ctx)
+					}
+					u = us.toM()
+					chk(t, "direct-bdsqr-UtU-I", ratio(orthCols(u), dim, 1), thresh, ctx)
+				}
+				if vts != nil {
+					if i, ok := vts.padOK(n, n); !ok {
+						t.Failf("padding of vt modified at flat index %d [%s]", i, ctx)
+					}
+					vt = vts.toM()
+					chk(t, "direct-bdsqr-VVt-I", ratio(orthRows(vt), dim, 1), thresh, ctx)
+				}
+				switch {
+				case us != nil && vts != nil:
+					chk(t, "direct-bdsqr-B-USVt", ratio(fro(sub(b, mul(mul(u, sig), vt))), dim, nrm), thresh, ctx)
+				case us != nil:
+					x := mul(u.T(), b)
+					chk(t, "direct-bdsqr-UtBBtU-S2", ratio(fro(sub(mul(x, x.T()), mul(sig, sig))), dim, nrm*nrm), thresh, ctx)
+				case vts != nil:
+					x := mul(b, vt.T())
+					chk(t, "direct-bdsqr-VBtBVt-S2", ratio(fro(sub(mul(x.T(), x), mul(sig, sig))), dim, nrm*nrm), thresh, ctx)
+				}
+				if cs != nil {
+					if i, ok := cs.padOK(n, ncc); !ok {
+						t.Failf("padding of c modified at flat index %d [%s]", i, ctx)
+					}
+					if us != nil {
+						chk(t, "direct-bdsqr-QtC", ratio(fro(sub(cs.toM(), mul(u.T(), cm))), dim, fro(cm)), thresh, ctx)
+					}
+				}
+				t.Count("bdsqr_direct_calls", 1)
+			}
+		}
+	}
+	if n >= 2 {
+		t.Nontrivial()
+	}
+	t.Outcome(fmt.Sprintf("diagonal=%v", zmask == 0))
+}
